@@ -62,8 +62,9 @@ def run_check(prop, tier, seed):
     lines = []
     for fid, m in matched.items():
         k = m['finding']
-        lines.append('KNOWN-FINDING: property=%s %s %s (%d kept occurrences; e.g. %s)' % (
-            prop, k['id'], k['signature'], m['count'], json.dumps(m['first']['case'], default=str)[:200]))
+        kpath = write_replay(prop, m['first'], k['signature'])
+        lines.append('KNOWN-FINDING: property=%s %s %s (%d kept occurrences; e.g. %s; replay=%s)' % (
+            prop, k['id'], k['signature'], m['count'], json.dumps(m['first']['case'], default=str)[:200], kpath))
     nviol = 0
     for sig, fl in new.items():
         nviol += len(fl)
